@@ -25,7 +25,8 @@ pub fn fast_gnp_random_graph(
     directed: bool,
     seed: Option<u64>,
 ) -> Result<Graph<i32, ()>, Error> {
-    if edge_probability <= 0.0 || edge_probability >= 1.0 {
+    // written so that NaN, which is neither <= 0 nor >= 1, is rejected as well
+    if !(edge_probability > 0.0 && edge_probability < 1.0) {
         return Err(Error {
             kind: ErrorKind::InvalidArgument,
             message: format!(
